@@ -4,7 +4,9 @@
    depth 2, at most two children (1098 trees, every pair compared). *)
 EXTENDS Keyring, TLC
 Names == {<<65>>, <<66>>, <<65, 66>>, <<66, 65>>}
-Vals == {<<>>, <<65>>, <<65, 66>>, <<1, 65>>}                   \* (1: an octet that is also a structure marker)
+CONSTANT Vals
+ValsFull == {<<>>, <<65>>, <<65, 66>>, <<1, 65>>}               \* (1: an octet that is also a structure marker)
+ValsQuick == {<<>>, <<65>>, <<1, 65>>}
 AttrSets == {<<>>} \cup {<< <<n, v>> >> : n \in {<<65>>, <<65, 66>>}, v \in Vals}
               \cup {<< <<<<65>>, v1>>, <<<<66>>, v2>> >> : v1 \in {<<>>, <<65>>}, v2 \in {<<>>, <<66>>}}
 Leaves == {[tag |-> n, attrs |-> a, kids |-> <<>>] : n \in {<<65>>, <<65, 66>>}, a \in {<<>>, << <<<<65>>, <<>>>> >>, << <<<<66>>, <<65>>>> >>}}
